@@ -774,6 +774,8 @@ func methodType(m reflect.Method) reflect.Type {
 	return reflect.FuncOf(in, out, m.Type.IsVariadic())
 }
 
+var pkgUnmodelled = []string{}
+
 func cmdSweep(args []string) {
 	fs := flag.NewFlagSet("sweep", flag.ExitOnError)
 	mode := fs.String("mode", "ronly", "ronly | dead | awkward | query")
@@ -825,6 +827,8 @@ func cmdSweep(args []string) {
 			sw.asArgument(rm)
 		}
 	case "dead":
+		// package-level functions and the Auxiliary type
+		pkgUnmodelled = sw.sweepPkgFuncs(*limit)
 		// Free on live receivers (writable and read-only): the handle must become
 		// zero exactly when the instance is not read-only
 		for _, rm := range append(liveStackMakers(), liveCondMakers()...) {
@@ -907,7 +911,7 @@ func cmdSweep(args []string) {
 		ms = append(ms, m)
 	}
 	sort.Strings(ms)
-	j, _ := json.Marshal(map[string]any{"events": sw.events, "methods": ms})
+	j, _ := json.Marshal(map[string]any{"events": sw.events, "methods": ms, "unmodelled_functions": pkgUnmodelled})
 	fmt.Println(string(j))
 }
 
@@ -951,6 +955,9 @@ func RunSweepReplay(r *SweepReplay) (bool, string) {
 	first := r.Events[0]
 	if first.Mode == "ronly-arg" {
 		return replayAsArgument(first)
+	}
+	if first.Mode == "pkg" {
+		return replayPkg(r.Events[len(r.Events)-1])
 	}
 	var rm *recvMaker
 	all := append(append(liveStackMakers(), liveCondMakers()...), deadMakers()...)
@@ -1070,4 +1077,27 @@ func scribble(x any, depth int) {
 			l[i] = "<<scribbled>>"
 		}
 	}
+}
+
+
+func replayPkg(want SweepEvent) (bool, string) {
+	f, _ := os.CreateTemp("", "sweepreplay")
+	defer os.Remove(f.Name())
+	defer f.Close()
+	sw := &sweeper{enc: json.NewEncoder(f), methods: map[string]bool{}}
+	sw.sweepPkgFuncs(400)
+	f.Seek(0, 0)
+	sc := bufio.NewScanner(f)
+	sc.Buffer(make([]byte, 1<<20), 1<<26)
+	for sc.Scan() {
+		var got SweepEvent
+		_ = json.Unmarshal(sc.Bytes(), &got)
+		if got.Ev == "call" && got.Recv == want.Recv && got.Method == want.Method && got.Args == want.Args {
+			if facts(got) == facts(want) {
+				return true, facts(got) + " " + got.Panic
+			}
+			return false, "recorded: " + facts(want) + "\nobserved: " + facts(got)
+		}
+	}
+	return false, "event not found on re-execution"
 }
